@@ -48,6 +48,12 @@ func main() {
 		case 3:
 			k, op = "0000"+k[4:], "0"+op[1:]
 		}
+		switch id % 8 { // OPc alone, OP alone (the other key of the configuration left empty)
+		case 5:
+			op = ""
+		case 7:
+			opc = ""
+		}
 		var supis [][]int
 		var rans []int
 		okKeys, okCaps := true, true
@@ -151,6 +157,15 @@ func main() {
 		population(fmt.Sprintf("20893%010d", p10-2), 2, 5)
 		population(fmt.Sprintf("310260%09d", (p10-2)%1000000000), 3, 5)
 	}
+	// populations that end exactly at, and one before, the last MSIN of their length (five-digit MSIN, both MNC lengths); the largest
+	// population with a three-digit MNC; short MSINs (IMSIs of 8 and 9 digits)
+	for _, n := range []int{1, 2, 300} {
+		population(fmt.Sprintf("00101%05d", 100000-n), 2, n)
+		population(fmt.Sprintf("310260%05d", 100000-n-1), 3, n)
+	}
+	population("31026090000", 3, 10000)
+	population("208930042", 2, 3)
+	population("310410998", 3, 2)
 	// every pair of algorithms a context may hold: the advertised capability must be exactly those two (TS 24.501 9.11.3.54)
 	for enc := 0; enc < 4; enc++ {
 		for integ := 0; integ < 4; integ++ {
